@@ -187,6 +187,8 @@ _ID_PREFIX = None
         ("sequential-clears-traceback", "tatsu/parproc/parproc.py", "yield from map(taskproc, tasks)", "for _r in map(taskproc, tasks):\n            if _r.exception is not None:\n                _r.exception.__traceback__ = None\n            yield _r", "caught"),
         ("payload-restored-by-path", "tatsu/parproc/parproc.py", "yield from pmap(stop, taskproc, tasks, max_workers)", "sent = {getattr(t.payload, 'path', None): t.payload for t in tasks}\n        for _r in pmap(stop, taskproc, tasks, max_workers):\n            _r.payload = sent.get(getattr(_r.payload, 'path', None), _r.payload)\n            yield _r", "caught"),
         ("results-deduplicated-by-payload", "tatsu/parproc/parproc.py", "yield from pmap(stop, taskproc, tasks, max_workers)", "done = []\n        for _r in pmap(stop, taskproc, tasks, max_workers):\n            if any(_r.payload == p for p in done):\n                continue\n            done.append(_r.payload)\n            yield _r", "caught"),
+        ("recursion-limit-restored-by-every-task", "tatsu/parproc/task.py", "        _limit_users -= 1\n        if _limit_users == 0:\n            sys.setrecursionlimit(_limit_saved)", "        _limit_users -= 1\n        sys.setrecursionlimit(_limit_saved)", "caught"),
+        ("recursion-limit-without-lock", "tatsu/parproc/task.py", "    global _limit_users\n    with _limit_lock:\n", "    global _limit_users\n    if True:\n", "caught"),  # restore slips into raise's critical section between its test and its increment
         ("processing-loop-dedupes-file-names", "tatsu/parproc/legacy.py", "paths = [Path(f) for f in filenames]", "paths = sorted({Path(f) for f in filenames})[:-1]", "caught"),
         ("processing-loop-text-of-first-file", "tatsu/parproc/legacy.py", "payloads = [VisualPayload(p, p.read_text()) for p in paths]", "payloads = [VisualPayload(p, paths[0].read_text()) for p in paths]", "caught"),
         # negative controls: behaviour-preserving edits — the check must stay quiet
